@@ -42,6 +42,9 @@ TRUSTED = [
     "AHC_z * c = -C e^2/h plus CumDOS/DOS per cell independent of c",
     "Data_K.dEig_inv is modelled per k-point (dEigInvAllK); the correspondence samples the real array for nk up to 3000 "
     "(first, last three, random indices)",
+    "hermitize / symmetrize (Hermitian vs symmetric part of the velocity matrix; theorems hermitize_of_hermitian, "
+    "symmetrize_eq_iff, omega_zero_of_real_D) have no counterpart in the unchanged code path of Data_K_k.Xbar (which applies "
+    "no such step): this piece of the model is tied to the code by the oracle only (k.p Chern cases through SystemKP)",
     "correspondence inputs keep every energy gap either exactly 0, 2^-40 (< 1e-7/1e5) or >= 2^-12 (> 1e-7*2000)",
 ]
 RULE = ("corr: 2-6 bands, sorted dyadic energies with exact and sub-threshold degeneracies, Hermitian Gaussian-dyadic "
